@@ -18,6 +18,14 @@ pub fn options(mode: Mode, scalability: bool) -> DecoderOption {
     o
 }
 
+/// The scalability option must not matter for Sorenson streams; checks that build their own
+/// decoder pick it pseudo-arbitrarily (from the tape or the enumeration index) in Sorenson mode.
+/// In standard mode it stays off: with it on, headers carry layer numbers that the picture
+/// serialiser does not write (C06 covers those headers).
+pub fn options_scal(mode: Mode, want_scal: bool) -> DecoderOption {
+    options(mode, mode == Mode::Sorenson && want_scal)
+}
+
 pub fn options_from_bits(bits: u8) -> DecoderOption {
     DecoderOption::from_bits_truncate(bits & 3)
 }
